@@ -812,6 +812,82 @@ pub fn judge_real_tcp(bin: &std::path::PathBuf, g: &super::c13::Guest, tag: &str
     Ok(Ok(f.msgs.len()))
 }
 
+/// cells the start-up dialog watches: the five bus-controller registers the run loop initialises at its start, cells
+/// in on-chip RAM and DRAM; the guest copies cell i to the DR of port i+1 (all outputs) round and round, and the flag
+/// byte to port B
+const WATCH: [u32; 9] = [0xfee020, 0xfee021, 0xfee022, 0xfee023, 0xfee026, 0xffd000, 0xffe123, 0x4abcde, 0x5ffff0];
+
+fn watch_guest() -> Vec<u8> {
+    let mut c = vec![];
+    c.extend(encode(&Insn::MovImm { sz: Sz::B, imm: 0xff, d: 8 }));
+    for p in 0..11u32 {
+        c.extend(encode(&Insn::Store { sz: Sz::B, s: 8, ea: Ea::A24(0xfee000 + p) }));
+    }
+    let top = c.len();
+    for (i, a) in WATCH.iter().enumerate() {
+        c.extend(encode(&Insn::Load { sz: Sz::B, ea: Ea::A24(*a), d: 8 }));
+        c.extend(encode(&Insn::Store { sz: Sz::B, s: 8, ea: Ea::A8((0xd0 + i) as u8) }));
+    }
+    c.extend(encode(&Insn::Load { sz: Sz::B, ea: Ea::A24(FLAG), d: 8 }));
+    c.extend(encode(&Insn::Store { sz: Sz::B, s: 8, ea: Ea::A8(0xda) }));
+    let disp = top as i32 - (c.len() as i32 + 4);
+    c.extend(encode(&Insn::Bcc { cond: 0, disp, wide: true }));
+    c
+}
+
+/// Real binary with `-s -w`: lines sent *while the emulator still waits for its start* act like any other line -
+/// exactly once, in order, and what they stored is there when the guest starts - whatever the batching around
+/// `cmd:start`. Oracle: the last value the guest announces for every watched cell == the cell's value after the
+/// line sequence (reset value where no line wrote it), read by the guest itself after the last line.
+pub fn judge_real_prestart(bin: &std::path::PathBuf, e: &mut Ent, tag: &str) -> Result<Result<usize, String>, String> {
+    use crate::engine::realbin::*;
+    let code = watch_guest();
+    let file = super::elfgen::simple_elf(&code, 0x100, 0x400, 0xfff0);
+    // reset values of the watched cells as the guest sees them: what the run loop programs, zero elsewhere
+    let mut model: Vec<u8> = vec![0xff, 0xfb, 0xff, 0xcf, 0xe0, 0, 0, 0, 0];
+    let mut mk = |e: &mut Ent, model: &mut Vec<u8>| -> String {
+        match e.below(8) {
+            0 => e.pick(&["cmd:pause", "bogus", "u8:fee023", "cmd:a:b", "", "cmd:start:x"]).to_string(),
+            _ => {
+                let i = e.below(WATCH.len() as u32) as usize;
+                // DRCRA's upper bits and the width/access bits of area 2 would slow the guest down, not stop it
+                let v = e.u8();
+                model[i] = v;
+                format!("u8:{:x}:{:x}", WATCH[i], v)
+            }
+        }
+    };
+    let pre: Vec<String> = (0..e.below(7)).map(|_| mk(e, &mut model)).collect();
+    // a pause sent before the start is undone by the start; one sent after it would suspend the guest for good
+    let post: Vec<String> = (0..e.below(5)).map(|_| mk(e, &mut model)).filter(|l| l != "cmd:pause").collect();
+    let n_pre = pre.len();
+    let lines = match run_tcp_dialog(bin, tag, &file, &pre, &post, FLAG, Duration::from_secs(60)) {
+        Ok(l) => l,
+        Err(RealErr::Inconclusive(m)) => return Err(m),
+    };
+    // last announced value per port 1..9
+    let mut last: Vec<u8> = vec![0; WATCH.len()];
+    for l in &lines {
+        let parts: Vec<&str> = l.split(':').collect();
+        if parts.len() == 4 && parts[0] == "ioport" {
+            if let (Ok(p), Ok(v)) = (u8::from_str_radix(parts[1], 16), u8::from_str_radix(parts[2], 16)) {
+                if (1..=WATCH.len() as u8).contains(&p) {
+                    last[p as usize - 1] = v;
+                }
+            }
+        }
+    }
+    for i in 0..WATCH.len() {
+        if last[i] != model[i] {
+            return Ok(Err(format!(
+                "real binary (-s -w), {} lines before cmd:start and {} after: the guest reads {:02x} at {:06x}; the line sequence leaves {:02x} there (pre-start lines {:?}, post-start lines {:?})",
+                n_pre, post.len(), last[i], WATCH[i], model[i], pre, post
+            )));
+        }
+    }
+    Ok(Ok(n_pre))
+}
+
 fn real_phase(ctx: &Ctx, n: u32) -> Stats {
     let Some(bin) = crate::engine::realbin::real_binary() else {
         let mut st = Stats::new();
@@ -842,6 +918,22 @@ fn real_phase(ctx: &Ctx, n: u32) -> Stats {
                 }
                 Err(m) => st.notes.push(format!("real-binary run inconclusive: {}", m)),
             }
+            // lines around the start
+            let mut e2 = Ent::new(&raw[250..]);
+            match judge_real_prestart(&bin, &mut e2, &format!("c18p-{}-{}", shard, i)) {
+                Ok(Ok(n_pre)) => {
+                    st.evaluations += 1;
+                    st.class("real binary (-s -w): lines before and after cmd:start, cells read back by the guest");
+                    if n_pre > 0 {
+                        st.class("real binary (-s -w): >= 1 line delivered while the emulator waits for its start");
+                    }
+                }
+                Ok(Err(m)) => {
+                    st.fail(Failure { signature: "real binary | lines around the start".into(), detail: m, case: json!({"kind": "real-prestart", "draws": raw[250..].to_vec()}) });
+                    break;
+                }
+                Err(m) => st.notes.push(format!("real-binary run inconclusive: {}", m)),
+            }
         }
         st
     })
@@ -857,6 +949,21 @@ pub fn run(ctx: &Ctx) -> i32 {
         let r: Result<(), String> = if let Some(lines) = case.get("lines").and_then(|l| l.as_array()) {
             let lines: Vec<String> = lines.iter().filter_map(|x| x.as_str().map(|s| s.to_string())).collect();
             [Schedule::AllBefore, Schedule::Trickle, Schedule::Bursts].iter().try_for_each(|s| judge_lines(&lines, *s, 12345).map(|_| ())).and_then(|_| judge_tcp_lines(&lines, 777))
+        } else if case.get("kind").and_then(|k| k.as_str()) == Some("real-prestart") {
+            let draws: Vec<u32> = case.get("draws").and_then(|d| d.as_array()).map(|a| a.iter().filter_map(|x| x.as_u64().map(|v| v as u32)).collect()).unwrap_or_default();
+            let Some(bin) = crate::engine::realbin::real_binary() else {
+                drop(quiet);
+                eprintln!("inconclusive: the real binary is not available (run through ./check)");
+                return 2;
+            };
+            match judge_real_prestart(&bin, &mut Ent::new(&draws), "replay-prestart") {
+                Ok(r) => r.map(|_| ()),
+                Err(m) => {
+                    drop(quiet);
+                    eprintln!("inconclusive: {}", m);
+                    return 2;
+                }
+            }
         } else if case.get("kind").and_then(|k| k.as_str()) == Some("real-tcp") {
             let (Some(file), Some(args)) = (case.get("file").and_then(|f| f.as_str()).and_then(crate::engine::stepcase::unhex), case.get("args").and_then(|a| a.as_str())) else { return 2 };
             let g = super::c13::Guest { file, args: args.to_string(), fails: case.get("fails").and_then(|f| f.as_bool()).unwrap_or(false), features: vec![], start_total: 0 };
